@@ -1119,7 +1119,10 @@ class Emit:
         for n, t in decls.items():
             out.append('  %s %s;' % (t, n))
         for n, t in self.extra_decls:
-            out.append('  %s %s;' % (t, n))
+            if self.opt_zero_allocas and n.startswith('al') and t != 'va_list':
+                out.append('  %s %s = {0};' % (t, n))  # opt-in --zero-allocas: stack objects start zeroed (see option help)
+            else:
+                out.append('  %s %s;' % (t, n))
         out.append('  goto L_%s;' % san(f.entry))
         out += body
         out.append('}')
@@ -1129,6 +1132,7 @@ class Emit:
     opt_ptrdiff = False
     opt_flat_unions = False
     opt_union_fp_bytes = False
+    opt_zero_allocas = False
     phi_tmps = set()
     extra_decls = []
 
@@ -1603,6 +1607,7 @@ def main():
     ap.add_argument('--ptrdiff', action='store_true', help='emit sub(ptrtoint p, ptrtoint q) as a C pointer difference (opt-in, see emit_ins)')
     ap.add_argument('--union-fp-bytes', action='store_true', help='emit float/double members of LLVM union.* structs (and structs nested in them by value) as byte arrays (opt-in, see emit_struct_defs)')
     ap.add_argument('--flat-unions', action='store_true', help='emit integer members of LLVM union.* structs as byte arrays (opt-in, see emit_struct_defs)')
+    ap.add_argument('--zero-allocas', action='store_true', help='declare every fixed-size alloca object zero-initialised (opt-in). CBMC constant-folds a load only when all bytes it covers are concrete; clang -O1 copies small structs as one i64, so ONE uninitialised member (struct pollfd::revents in Poll::add) makes the whole copied struct symbolic. Price, to be stated in spec.ASSUMPTIONS: behaviour that depends on reading uninitialised STACK memory is not explored (the model shows zeros / stale values)')
     ap.add_argument('--report', default='', help='write JSON report (functions emitted, unmodelled externals)')
     a = ap.parse_args()
     m = parse_module(open(a.ll).read())
@@ -1612,7 +1617,7 @@ def main():
         if f.isdef and any(re.search(c, n[1:].strip('"')) for c in a.cut):
             f.isdef = False; f.blocks = collections.OrderedDict(); cut_names.append(n[1:])
     e = Emit(m, roots)
-    e.opt_ptrdiff = a.ptrdiff; e.opt_flat_unions = a.flat_unions; e.opt_union_fp_bytes = a.union_fp_bytes
+    e.opt_ptrdiff = a.ptrdiff; e.opt_flat_unions = a.flat_unions; e.opt_union_fp_bytes = a.union_fp_bytes; e.opt_zero_allocas = a.zero_allocas
     e.cut_names = cut_names
     e.append = a.append
     if a.provided:
